@@ -26,7 +26,7 @@ import tempfile
 import traceback
 
 from gverif.props import c20_repo
-from gverif.props.c20_repo import PKG, git
+from gverif.props.c20_repo import F_PARAMS, PKG, PRIV, git
 
 _orig_run = subprocess.run
 W: dict = {}          # per-process state: griffe module, scratch dir, templates
@@ -63,13 +63,15 @@ class Recorder:
         r = {
             "worktrees": git(self.repo, "worktree", "list", "--porcelain", check=False),
             "refs": git(self.repo, "for-each-ref", "--format=%(refname) %(objectname)", "refs/heads", "refs/tags", check=False),
-            "status": git(self.repo, "status", "--porcelain", check=False),
+            # tracked, untracked AND ignored files of the user's working tree (an ignored __pycache__ counts)
+            "status": git(self.repo, "status", "--porcelain", "--ignored", "--untracked-files=all", check=False),
             "tmp": sorted(n for n in os.listdir(tempfile.gettempdir()) if n.startswith("griffe-worktree-")),
         }
         if full:
             r["branch_list"] = git(self.repo, "branch", "--list", check=False)
             r["head"] = git(self.repo, "rev-parse", "HEAD", check=False).strip() + " " + git(self.repo, "symbolic-ref", "-q", "HEAD", check=False).strip()
             r["stash"] = git(self.repo, "stash", "list", check=False)
+            r["tree"] = _tree(self.repo)          # listing + content hashes of the user's working tree
             r["uwt_status"] = git(self.uwt, "status", "--porcelain", check=False) if os.path.isdir(self.uwt) else "<gone>"
         return r
 
@@ -148,6 +150,23 @@ class Recorder:
             self.fired.append((self.phase, at))
             self.log("Interrupt", at=at)
             raise KeyboardInterrupt(f"injected before {at}")
+
+
+def _tree(top: str) -> list:
+    import hashlib
+
+    out = []
+    for root, dirs, files in os.walk(top):
+        if ".git" in dirs:
+            dirs.remove(".git")
+        rel = os.path.relpath(root, top)
+        out.extend(os.path.join(rel, d) + "/" for d in dirs)
+        for f in files:
+            if f == ".git":
+                continue
+            with open(os.path.join(root, f), "rb") as fh:
+                out.append(os.path.join(rel, f) + " " + hashlib.sha1(fh.read()).hexdigest())  # noqa: S324
+    return sorted(out)
 
 
 def _listing(top: str) -> frozenset:
@@ -245,20 +264,40 @@ def install(griffe):
     subprocess.run = _run_wrapper
     _griffe.git.TemporaryDirectory = _RecTmp
 
-    orig_load = _griffe.loader.load
+    orig_tmp_worktree = _griffe.loader.tmp_worktree
 
-    def load_wrapper(*a, **kw):
-        rec = REC
-        if rec is None:
-            return orig_load(*a, **kw)
-        rec.log("EnterTry")
-        rec.maybe_interrupt("Find")
-        obj = orig_load(*a, **kw)
-        rec.maybe_interrupt("Return")
-        rec.log("Return")
-        return obj
+    class WorktreeScope:
+        """Wraps the context manager load_git enters: EnterTry = its body starts, Return = its body ends normally.
+        Interrupts `before Find` / `before Return` are raised INSIDE the body (thrown into the generator at its yield)."""
 
-    _griffe.loader.load = load_wrapper
+        def __init__(self, *a, **kw):
+            self.cm = orig_tmp_worktree(*a, **kw)
+
+        def __enter__(self):
+            value = self.cm.__enter__()
+            rec = REC
+            if rec is not None:
+                rec.log("EnterTry")
+                try:
+                    rec.maybe_interrupt("Find")
+                except KeyboardInterrupt as exc:
+                    if not self.cm.__exit__(type(exc), exc, exc.__traceback__):
+                        raise
+            return value
+
+        def __exit__(self, et, ev, tb):
+            rec = REC
+            if et is None and rec is not None:
+                try:
+                    rec.maybe_interrupt("Return")
+                except KeyboardInterrupt as exc:
+                    if not self.cm.__exit__(type(exc), exc, exc.__traceback__):
+                        raise
+                    return False
+                rec.log("Return")
+            return self.cm.__exit__(et, ev, tb)
+
+    _griffe.loader.tmp_worktree = WorktreeScope
 
     orig_find = _griffe.finder.ModuleFinder.find_spec
 
@@ -455,6 +494,9 @@ def run_case(case: dict) -> dict:
     outcome, exitcode, exc_text, stderr_text = "returned", 9, "", ""
     cwd = os.getcwd()
     REC = rec
+    # the repository root is importable in the running interpreter (`python -m griffe check` started from the
+    # repository root, editable installs): the user's CURRENT package must never be imported instead of the ref's
+    sys.path.insert(0, repo)
     try:
         if plan["op"] == "load":
             W["load_git"](PKG, ref=plan["ref1"], repo=target, extensions=ext, force_inspection=inspect, resolve_aliases=True)
@@ -484,6 +526,8 @@ def run_case(case: dict) -> dict:
     finally:
         REC = None
         os.chdir(cwd)
+        with contextlib.suppress(ValueError):
+            sys.path.remove(repo)
     final_raw = rec.raw(full=True)
     rec.events.append({"ev": "Finish", "phase": rec.phase, "outcome": outcome, "exitcode": exitcode, "post": rec.project(final_raw)})
     init_raw = {k: v for k, v in rec.init_raw.items() if not k.startswith("_")}
@@ -499,7 +543,10 @@ def run_case(case: dict) -> dict:
     if final_raw["head"] != init_raw["head"]:
         bad.append(("head", f"HEAD was {init_raw['head']!r}, is {final_raw['head']!r}"))
     if final_raw["status"] != init_raw["status"] or final_raw["stash"] != init_raw["stash"] or final_raw["uwt_status"] != init_raw["uwt_status"]:
-        bad.append(("status", f"git status --porcelain was {init_raw['status']!r}, is {final_raw['status']!r}"))
+        bad.append(("status", f"git status --porcelain --ignored was {init_raw['status']!r}, is {final_raw['status']!r}"))
+    if final_raw["tree"] != init_raw["tree"]:
+        diff = sorted(set(final_raw["tree"]) ^ set(init_raw["tree"]))
+        bad.append(("worktree-files", f"the user's working tree changed: {diff[:6]}"))
     if final_raw["refs"] != init_raw["refs"] or final_raw["branch_list"] != init_raw["branch_list"]:
         before, after = set(init_raw["refs"].splitlines()), set(final_raw["refs"].splitlines())
         gone = sorted(before - after)
@@ -520,12 +567,26 @@ def run_case(case: dict) -> dict:
             bad.append(("worktrees", f"git worktree list changed: {final_raw['worktrees']!r}"))
     if final_raw["tmp"]:
         bad.append(("tmpdirs", f"temporary checkout left behind under {W['tmp']}: {final_raw['tmp']}"))
+    # "package absent at that reference" must fail: a load_git of such a ref that RETURNS an object is wrong
+    absent_returned = [e["phase"] for e in rec.events if e["ev"] == "EndLoad" and e.get("exc") == "none"
+                       and (plan["ref1"] if e["phase"] == 1 else plan["ref2"]) == "v0"]
+    if absent_returned:
+        bad.append(("outcome", f"load_git returned an object for ref 'v0', where the package does not exist (load_git call #{absent_returned[0]})"))
+    # every loader stage lies inside the lifetime of the temporary worktree
+    for ph in (1, 2):
+        evs = [e["ev"] for e in rec.events if e["phase"] == ph]
+        if "WorktreeRemove" in evs:
+            late = [x for x in evs[evs.index("WorktreeRemove"):] if x in ("Find", "Analyse", "ExtensionHook", "ResolveAliases")]
+            if late:
+                bad.append(("ordering", f"loader stage(s) {late} of load_git call #{ph} ran after `git worktree remove`"))
     lines_ok = []
     if outcome == "returned" and exitcode != 2:
         refs = [plan["ref1"]] if plan["op"] == "load" else [plan["ref1"], plan["ref2"]]
         if len(rec.results) != len(refs):
             rec.errors.append(f"{len(rec.results)} objects returned for {len(refs)} load_git calls")
         for obj, ref in zip(rec.results, refs):
+            if ref == "v0":
+                continue          # nothing to compare with: the package does not exist there (clause `outcome`)
             try:
                 want = expected_lines(repo, "HEAD" if ref == "WT" else ref)
                 checkout_gone = ref == "WT" or not os.path.exists(str(obj.filepath))
@@ -537,10 +598,27 @@ def run_case(case: dict) -> dict:
                     what = f"checkout file {obj.filepath} still exists"
                 elif got != want:
                     what = f"obj.lines has {len(got)} lines after the checkout was removed, the file at {ref} has {len(want)}"
+                if ok:
+                    # members re-exported from the private sibling package: usable through the alias
+                    api = 1 if (("HEAD" if ref == "WT" else ref) in ("v1", "x", "refs/tags/v1")) else 2
+                    fal = obj["f"]
+                    tgt = fal.final_target if fal.is_alias else fal      # raises AliasResolutionError when unresolvable
+                    names = [p.name for p in fal.parameters]
+                    gtgt = obj["g"].final_target if obj["g"].is_alias else obj["g"]
+                    if inspect:
+                        # the inspector inlines re-exported functions, and a second inspection in the same process sees
+                        # the cached module (outside C20): only require that the members are usable
+                        if not names or not tgt.is_function or not gtgt.is_function:
+                            ok, what = False, f"obj['f'] = {fal!r} with parameters {names}"
+                    elif not fal.is_alias or tgt.path != PRIV + ".f":
+                        ok, what = False, f"obj['f'] is {fal!r} -> {tgt.path}"
+                    elif names != F_PARAMS[api]:
+                        ok, what = False, f"obj['f'].parameters = {names}, at {ref} it has {F_PARAMS[api]}"
+                    elif not inspect and (("def f(" + ", ".join(["a", "b=1"][: len(names)]) + "):") not in fal.source or not fal.lines):
+                        ok, what = False, f"obj['f'].source = {fal.source!r}"
+                    elif gtgt.path != PRIV + ".g":
+                        ok, what = False, "obj['g'] does not resolve"
                 if ok and not inspect:
-                    fsrc = obj["f"].source
-                    if "def f(a, b=1):" not in fsrc:
-                        ok, what = False, f"obj['f'].source = {fsrc!r}"
                     ksrc = obj["sub"]["K"]["m"].source
                     if "def m(self):" not in ksrc:
                         ok, what = False, f"obj['sub.K.m'].source = {ksrc!r}"
@@ -558,7 +636,7 @@ def run_case(case: dict) -> dict:
         W["cached"][(plan["bc"] == "ignored", plan["status0"], bool(plan.get("notags")))] = (base, repo, uwt, rec.init_raw)
     else:
         shutil.rmtree(base, ignore_errors=True)
-    for name in [m for m in sys.modules if m == PKG or m.startswith(PKG + ".")]:
+    for name in [m for m in sys.modules if m in (PKG, PRIV) or m.startswith((PKG + ".", PRIV + "."))]:
         del sys.modules[name]
     importlib.invalidate_caches()
     real_tmp_branch = {str(k): v for k, v in rec.tmp_branch.items()}
@@ -579,6 +657,7 @@ def run_case(case: dict) -> dict:
         "stderr": stderr_text[:400],
         "tmp_branch": real_tmp_branch,
         "final": {k: final_raw[k] for k in ("worktrees", "branch_list", "status", "head", "tmp")},
+        "absent_returned": absent_returned,
     }
 
 
